@@ -380,3 +380,58 @@ Proof.
   split; [exact H0|]. split; [exact H1|]. split; [exact H2|]. split; [exact H3|]. split; [exact H4|]. split; [exact H5|].
   split; [exact A|]. split; [exact B|exact C].
 Qed.
+
+(* ================================================================================================== *)
+(* non-vacuity examples added after the reviewer's audit (Properties/C03_nv.v, 2026-10-01)         *)
+(* ================================================================================================== *)
+
+(* ==== non-vacuity instances obtained BY APPLYING the theorems above (added after review) ================== *)
+
+(* C03_trailing_spaces_idem: blanks and tabs at line ends, inside a quoted string, an empty line, a last line of blanks *)
+Example C03_trailing_spaces_idem_nonvacuous :
+  let s := of_string "a 1;  " ++ [c_lf] ++ of_string "sub   " ++ [c_tab; c_lf] ++ of_string "{  " ++ [c_lf] ++
+           of_string "    b   'x y ';   " ++ [c_lf] ++ of_string "}" ++ [c_lf; c_lf] ++ of_string "  " in
+  remove_trailing_spaces (remove_trailing_spaces s) = remove_trailing_spaces s /\
+  remove_trailing_spaces s = of_string "a 1;
+sub
+{
+    b   'x y ';
+}
+
+" /\ remove_trailing_spaces s <> s.
+Proof. intros s. split; [exact (C03_trailing_spaces_idem s)|]. split; [vm_compute; reflexivity | vm_compute; discriminate]. Qed.
+
+(* C03_header_stable: a block comment without the C++ mark gets the default header in front, once *)
+Example C03_header_stable_nonvacuous :
+  let bc := of_string "/* two */" in
+  make_default_block_comment (make_default_block_comment bc) = make_default_block_comment bc /\
+  make_default_block_comment bc = native_header ++ bc /\ make_default_block_comment bc <> bc.
+Proof. intros bc. split; [exact (C03_header_stable bc)|]. split; [vm_compute; reflexivity | vm_compute; discriminate]. Qed.
+
+(* C03_reread_inc_partial on the example SDict (line comment, two include entries whose ids are not in text order, a string
+   that is re-typed, a block comment without the C++ mark, a nested dict with a block comment and a quoted string), the
+   counter three steps before the six-digit wrap-around: the new ids wrap (999998, 999999, 0, 1) *)
+Example C03_reread_inc_partial_nonvacuous :
+  let s := ex03i_sd in let dir := of_string "/e" in
+  rereadable_inc s = true /\ (Z.of_nat (length (sd_lc s)) < 1000000)%Z /\
+  (Z.of_nat (length (lc_list (written_doc_inc s))) <= 1000000)%Z /\ (Z.of_nat (length (bc_list (written_doc_inc s))) <= 1000000)%Z /\
+  (Z.of_nat (length (lit_list (written_doc_inc s))) <= 1000000)%Z /\ (Z.of_nat (length (inc_names s)) <= 1000000)%Z /\
+  parse_string true dir 999997%Z (to_string_sd s) =
+    Ok (mkParsed (number_inc dir 999997%Z (written_doc_inc s) (inc_names s)) 1%Z) /\
+  sd_inc (number_inc dir 999997%Z (written_doc_inc s) (inc_names s)) =
+    [(999999, (of_string "#include top.dict", of_string "top.dict", of_string "/e/top.dict"));
+     (0, (of_string "#include 'sub/inc.dict'", of_string "sub/inc.dict", of_string "/e/sub/inc.dict"))] /\
+  length (lc_list (written_doc_inc s)) = 1%nat /\ length (bc_list (written_doc_inc s)) = 3%nat /\ length (lit_list (written_doc_inc s)) = 1%nat.
+Proof.
+  intros s dir.
+  assert (H0 : rereadable_inc s = true) by (vm_compute; reflexivity).
+  assert (Hl : (Z.of_nat (length (sd_lc s)) < 1000000)%Z) by (vm_compute; reflexivity).
+  assert (H1 : (Z.of_nat (length (lc_list (written_doc_inc s))) <= 1000000)%Z) by (vm_compute; discriminate).
+  assert (H2 : (Z.of_nat (length (bc_list (written_doc_inc s))) <= 1000000)%Z) by (vm_compute; discriminate).
+  assert (H3 : (Z.of_nat (length (lit_list (written_doc_inc s))) <= 1000000)%Z) by (vm_compute; discriminate).
+  assert (H4 : (Z.of_nat (length (inc_names s)) <= 1000000)%Z) by (vm_compute; discriminate).
+  pose proof (C03_reread_inc_partial s dir 999997%Z H0 Hl ltac:(lia) H1 H2 H3 H4) as A.
+  assert (Hc : count_after_inc 999997%Z (written_doc_inc s) (inc_names s) = 1%Z) by (vm_compute; reflexivity). rewrite Hc in A.
+  refine (conj H0 (conj Hl (conj H1 (conj H2 (conj H3 (conj H4 (conj A _))))))).
+  vm_compute. repeat split; reflexivity.
+Qed.
